@@ -19,6 +19,10 @@ pub open spec fn stmt_kind(k: LuaScopeKind) -> bool {
     k == LuaScopeKind::LocalOrAssignStat || k == LuaScopeKind::FuncStat || k == LuaScopeKind::MethodStat
 }
 pub open spec fn func_kind(k: LuaScopeKind) -> bool { k == LuaScopeKind::FuncStat || k == LuaScopeKind::MethodStat }
+// (named so that the quantifiers of tree_wf have triggers that their own bodies do not produce)
+pub open spec fn is_stmt(ss: Seq<LuaScope>, i: int) -> bool { stmt_kind(kd(ss, i)) }
+pub open spec fn is_func(ss: Seq<LuaScope>, i: int) -> bool { func_kind(kd(ss, i)) }
+pub open spec fn is_repeat(ss: Seq<LuaScope>, i: int) -> bool { kd(ss, i) == LuaScopeKind::Repeat }
 
 // ---- links_wf: what the API of the tree itself guarantees (create_scope: id = index; add_child_scope: parent <-> child) --------------
 // and what the termination / no-panic argument needs. A parent is created before its children (it is on the builder's stack).
@@ -270,7 +274,7 @@ pub open spec fn wf_order(ss: Seq<LuaScope>) -> bool {
 }
 /// a Repeat scope holds no declarations; its first child is the body block (kind Normal), which holds no declarations directly
 pub open spec fn wf_repeat(ss: Seq<LuaScope>) -> bool {
-    forall|i: int| 0 <= i < ss.len() && #[trigger] kd(ss, i) == LuaScopeKind::Repeat ==> {
+    forall|i: int| 0 <= i < ss.len() && #[trigger] is_repeat(ss, i) ==> {
         &&& first_scope(ss, i) >= 0
         &&& kd(ss, first_scope(ss, i)) == LuaScopeKind::Normal
         &&& forall|k: int| 0 <= k < kids(ss, i).len() ==> #[trigger] kids(ss, i)[k] is Scope
@@ -280,7 +284,7 @@ pub open spec fn wf_repeat(ss: Seq<LuaScope>) -> bool {
 /// statement scopes (`local`/assignment, function statements): not empty, a direct child of a block (kind Normal), their declarations are
 /// name tokens inside the statement
 pub open spec fn wf_stmt(ss: Seq<LuaScope>) -> bool {
-    forall|i: int| 0 <= i < ss.len() && stmt_kind(#[trigger] kd(ss, i)) ==> {
+    forall|i: int| 0 <= i < ss.len() && #[trigger] is_stmt(ss, i) ==> {
         &&& st(ss, i) < en(ss, i)
         &&& i > 0 && 0 <= par(ss, i) && kd(ss, par(ss, i)) == LuaScopeKind::Normal
         &&& forall|k: int| 0 <= k < kids(ss, i).len() ==> (#[trigger] kids(ss, i)[k] matches ScopeOrDeclId::Decl(d) ==> st(ss, i) <= pos_of(d) < en(ss, i))
@@ -288,7 +292,7 @@ pub open spec fn wf_stmt(ss: Seq<LuaScope>) -> bool {
 }
 /// a function statement declares at most one name and starts (keyword `function` / `local`) before its closure
 pub open spec fn wf_func(ss: Seq<LuaScope>) -> bool {
-    forall|i: int| 0 <= i < ss.len() && func_kind(#[trigger] kd(ss, i)) ==> {
+    forall|i: int| 0 <= i < ss.len() && #[trigger] is_func(ss, i) ==> {
         &&& forall|k: int| 0 <= k < kids(ss, i).len() ==> (#[trigger] kids(ss, i)[k] matches ScopeOrDeclId::Scope(sid) ==> st(ss, i) < st(ss, sid.id as int))
         &&& forall|a: int, b: int| 0 <= a < kids(ss, i).len() && 0 <= b < kids(ss, i).len()
                 && #[trigger] kids(ss, i)[a] is Decl && #[trigger] kids(ss, i)[b] is Decl ==> a == b
